@@ -1,3 +1,4 @@
+use crate::bitvec::*;
 use crate::engine::*;
 
 
@@ -43,8 +44,15 @@ where
     fn execute(&mut self, _: bool, scratchpad: &mut Scratchpad<'a>) -> Result<(), QueryError> {
         let (data, present) = scratchpad.get_nullable(self.input);
         let (mut output, mut output_present) = scratchpad.get_mut_nullable(self.output);
+        // Batches are not necessarily a multiple of 8 long (e.g. after a filter), so the null map has to be appended bit by bit.
+        let offset = output.len();
         output.extend(data.iter());
-        output_present.extend(present.iter());
+        output_present.resize(output.len().div_ceil(8), 0);
+        for i in 0..data.len() {
+            if present.is_set(i) {
+                output_present.set(offset + i);
+            }
+        }
         Ok(())
     }
 
